@@ -571,6 +571,14 @@ def qufirst(ctx: Any) -> List[Ob]:
     seq_qb = {tuple(x for x in strip_ret(t) if x == 'USE' or isinstance(x, tuple) and x[0] == 'QUBIT') for t in oc_qb}
     ok_qb = bool(seq_qb) and all(sq and sq[0] == ('QUBIT', quv_b) and sum(1 for x in sq if isinstance(x, tuple)) == 1 for sq in seq_qb)
     obs.append(ob(R, g, f'question.unicast = {quv_b}', 'every question of the browser query carries the QU bit that was decided, set before the question is used', ok_qb, f'per type: {sorted(map(str, seq_qb))[:3]}'))
+    # the QU bit of a question is the `unique` flag the class writer reads (C01.FLUSHBIT): the `unicast` property of a question
+    # stores into it and reads from it
+    qcls = prog.cls('zeroconf._dns.DNSQuestion')
+    uset, uget = qcls.setters.get('unicast'), qcls.methods.get('unicast') or getattr(qcls, 'getters', {}).get('unicast')
+    if uset is None:
+        raise AnalysisError('anchor vanished: the unicast setter of DNSQuestion')
+    st_u = [st_ for t_, st_ in attr_stores(uset.node) if isinstance(st_, ast.Assign)]
+    obs.append(ob(R, uset, st_u[0] if st_u else 'self.unique = value', 'setting `unicast` on a question sets the flag the class writer emits as the QU bit', len(st_u) == 1 and self_attr(st_u[0].targets[0], uset.params[0]) == 'unique' and norm(st_u[0].value) == uset.params[1]))
     # start-up: first request flag is `no start-up query sent yet`
     su = prog.func('zeroconf._services.browser.QueryScheduler._process_startup_queries')
     calls = [c for c in walk_local_ordered(su.node) if isinstance(c, ast.Call) and call_name(c) == 'async_send_ready_queries']
